@@ -120,7 +120,11 @@ def run_property(pid, tier, repo):
                 ob["text_in_sync_with_spec_template"] = meta.get("in_sync_with_template")
                 ob["contract"] = contracts.get(key, "")[:600]
             obligations.append(ob)
-        for fl in r["failures"]:
+        if r["status"] == "infra" and r["failures"]:
+            # the emitted text did not even parse / type-check / keep its vacuity guards: nothing reported for this run is a
+            # verdict (typically a change of the statement structure that the spec template has to be ported to)
+            infra.append("%s: %d proof failure(s) reported next to an infrastructure error are NOT counted as violations" % (tag, len(r["failures"])))
+        for fl in (r["failures"] if r["status"] != "infra" else []):
             fn = fl.get("function")
             is_lemma = bool(fn) and fn not in [f["name"] for f in unit["functions"].values()] and not (fn or "").startswith("reach_")
             key = None
